@@ -1431,6 +1431,9 @@ func preprocessStylesheet(deviceMediaType, baseUrl string, stylesheetRules []pa.
 				}
 
 				counterStyle[name] = ruleDescriptors
+			default:
+				logger.WarningLogger.Printf("Unknown or unsupported rule '@%s' ignored at %d:%d.",
+					rule.AtKeyword, rule.Pos().Line, rule.Pos().Column)
 			}
 		}
 	}
